@@ -206,8 +206,8 @@ A(Fn(X224, "new", impl=r"Client<S>", mod="x224", props=["C02"],
 A(Fn(X224, "write_connection_request", impl=r"Client<S>", mod="x224", props=["C17", "C03", "C04"],
      ensures=[("C17,C03,C04", "request-bytes", "r is Ok ==> final(tpkt).written() =~= old(tpkt).written() + tpkt::tpkt_frame(conn_req_bytes((if mode is Some { mode->Some_0 } else { 0u8 }), security_protocols))"),
               (None, "frame", "final(tpkt).rest() == old(tpkt).rest() && final(tpkt).tls() == old(tpkt).tls() && is_prefix(old(tpkt).written(), final(tpkt).written())")]))
-NEG_FAIL_ERR = r'Err\(Error::RdpError\(RdpError::new\(RdpErrorKind::ProtocolNegFailure, "Error during negotiation step"\)\)\)'
-NEG_REQ_ERR = r'Err\(Error::RdpError\(RdpError::new\(RdpErrorKind::InvalidAutomata, "Server reject security protocols"\)\)\)'
+NEG_FAIL_ERR = r'Err\(Error::RdpError\(RdpError::new\(RdpErrorKind::ProtocolNegFailure, "[^"]*"\)\)\)'
+NEG_REQ_ERR = r'Err\(Error::RdpError\(RdpError::new\(RdpErrorKind::InvalidAutomata, "[^"]*"\)\)\)'
 NEG_P = "let b = old(tpkt).rest(); let p = b.subrange(tpkt::frame_hdr(b), tpkt::frame_len(b));"
 A(Fn(X224, "read_connection_confirm", impl=r"Client<S>", mod="x224", props=["C02", "C05", "C03"], keys=True,
      # refusal justifications (MS-RDPBCGR 2.2.1.2: the negotiation structure behind the X.224 confirm is RDP_NEG_RSP type 2 or RDP_NEG_FAILURE type 3):
@@ -245,7 +245,8 @@ A(Fn(X224, "read_connection_confirm", impl=r"Client<S>", mod="x224", props=["C02
         }"""),
             (r"let nego = cast!", 1, "proof { assert(nego.fields() == pdu_neg(m)); }"),
             (NEG_FAIL_ERR, 1, "}", "atend"), (NEG_REQ_ERR, 1, "}", "atend")]))
-NOT_HANDLED_ERR = r'Err\(Error::RdpError\(RdpError::new\(RdpErrorKind::InvalidProtocol, "Security protocol not handled"\)\)\)'
+# the catch-all arm of the dispatch (`_ => Err(..)`), whatever its message text says
+NOT_HANDLED_ERR = r'(?<=_ => )Err\(Error::RdpError\(RdpError::new\(RdpErrorKind::InvalidProtocol, "[^"]*"\)\)\)'
 SEL_P = "let p = b0.subrange(tpkt::frame_hdr(b0), tpkt::frame_len(b0)); let sel = Protocols::from_repr(neg_rsp_selected(p));"
 A(Fn(X224, "connect", impl=r"Client<S>", mod="x224", props=["C02", "C17", "C03"],
      requires=["!tpkt.tls()"],
